@@ -4,6 +4,8 @@ package props
 import (
 	_ "verif/props/c01"
 	_ "verif/props/c02"
+	_ "verif/props/c04"
+	_ "verif/props/c05"
 	_ "verif/props/c09"
 	_ "verif/props/c11"
 	_ "verif/props/c12"
